@@ -237,6 +237,26 @@ def test_check_value():
         ("NUMBER", 2**63, float(2**63), {"pytype"}),
         ("NUMBER", 10**38 - 1, 10**38 - 1, set()),
         ("NUMBER", 10**38 - 1, float(10**38), {"pytype", "value"}),
+        ("NUMBER(10,0)", 0, 0, set()),
+        ("NUMBER(10,0)", 0, D("0"), {"pytype"}),
+        ("NUMBER(10,0)", 0, False, {"pytype"}),
+        ("NUMBER(10,0)", 0, 0.0, {"pytype"}),
+        ("NUMBER(10,2)", D("0"), 0, {"pytype"}),
+        ("NUMBER(10,2)", D("0"), D("0.00"), set()),
+        ("FLOAT", 0.0, 0, {"pytype"}),
+        ("FLOAT", 0.0, D("0"), {"pytype"}),
+        ("BOOLEAN", False, 0, {"pytype"}),
+        ("BOOLEAN", False, None, {"null"}),
+        ("VARCHAR", "", "", set()),
+        ("BINARY", b"", b"", set()),
+        ("BINARY", b"", "", {"pytype"}),
+        ("VARIANT", "false", "false", set()),
+        ("VARIANT", "false", "0", {"value"}),
+        ("VARIANT", "0", "false", {"value"}),
+        ("VARIANT", '""', '""', set()),
+        ("VARIANT", '""', None, {"null"}),
+        ("VARIANT", "{}", "[]", {"value"}),
+        ("VARIANT", "{}", "null", {"value"}),
         ("INT", 5, None, {"null"}),
         ("INT", None, 0, {"null"}),
         ("INT", None, None, set()),
@@ -350,13 +370,31 @@ def test_product():
                 check(f"ids positive {t['sql']} {p} {tier}", min(ids) > 0, True)
                 check(f"cell keys unique {t['sql']} {p} {tier}", len({(c['shape'], c['null']) for c in cs}), len(cs))
     cs = M.cells(T("BOOLEAN"), "lit", "thorough")
-    check("cells of BOOLEAN/lit", [(c["shape"], c["null"], [v for _, v in c["rows"]]) for c in cs][:4] + [(cs[-1]["shape"], cs[-1]["null"], [v for _, v in cs[-1]["rows"]])],
-          [("true", "none", [True]), ("true", "first", [None, True]), ("true", "middle", [True, None, True]), ("true", "last", [True, None]), ("null", "all", [None, None])])
+    check("cells of BOOLEAN/lit", [(c["shape"], c["null"], [v for _, v in c["rows"]]) for c in cs][:5] + [(cs[-1]["shape"], cs[-1]["null"], [v for _, v in cs[-1]["rows"]])],
+          [("true", "none", [True]), ("true", "first", [None, True]), ("true", "middle", [True, None, True]), ("true", "last", [True, None]),
+           ("true", "after_identity", [False, True]), ("null", "all", [None, None])])
+    check("identity value is not paired with itself", [c["null"] for c in cs if c["shape"] == "false"], ["none", "first", "middle", "last"])
+    # the reduced (quick) alphabets keep what truthiness shortcuts and first-row sniffing break
+    check("quick keeps NULL in the first row and the identity value in the first row", {"first", "after_identity"} <= set(M.QUICK_PLACEMENTS), True)
+    for t in M.TYPES:
+        ish, iv = M.identity(t)
+        check(f"identity of {t['sql']} is in the quick alphabet", ish in M.QUICK_SHAPES[t["family"]], True)
+        if t["family"] in ("bool", "fixed0", "fixedS", "float", "text", "binary"):
+            check(f"identity of {t['sql']} is falsy", bool(iv), False)
+        if t["family"] == "json":
+            check(f"identity of {t['sql']} is an empty container", json.loads(iv) in ({}, []) and not json.loads(iv), True)
+    check("identities", [M.identity(T(n)) for n in ("NUMBER(10,0)", "NUMBER(10,2)", "FLOAT", "VARCHAR", "BOOLEAN", "BINARY", "DATE", "TIME", "TIMESTAMP_NTZ", "VARIANT", "ARRAY")],
+          [("zero", 0), ("zero", D(0)), ("zero", 0.0), ("empty", ""), ("false", False), ("empty", b""), ("epoch", dt.date(1970, 1, 1)),
+           ("midnight", dt.time(0, 0)), ("epoch_exact", dt.datetime(1970, 1, 1)), ("empty_object", "{}"), ("empty_array", "[]")])
+    check("falsy JSON scalars are in the alphabet", {"json_false", "json_int", "json_empty_str", "json_null"} <= {k for k, _ in M.values_for(T("VARIANT"))}, True)
+    check("no identity pairing of dict cells in one DataFrame column", [c for c in M.cells(T("VARIANT"), "wp", "thorough") if c["null"] == "after_identity"], [])
+    check("identity pairing of JSON through SQL", [[v for _, v in c["rows"]] for c in M.cells(T("ARRAY"), "lit", "thorough") if c["null"] == "after_identity"], [["[]", '[1,[2,{"a":null}]]']])
     check("quick subset of thorough", all({(c["shape"], c["null"]) for c in M.cells(t, p, "quick")} <= {(c["shape"], c["null"]) for c in M.cells(t, p, "thorough")}
                                         for t in M.TYPES for p in M.PATHS if M.type_applies(t, p)), True)
     check("vclass", [M.vclass(T("INT"), "one", 1), M.vclass(T("INT"), "over_int64", 2**63), M.vclass(T("INT"), "int64_min", -(2**63)),
-                     M.vclass(T("VARIANT"), "json_null", "null"), M.vclass(T("VARIANT"), "nested_array", "[]"), M.vclass(T("TEXT"), "null", None), M.vclass(T("TEXT"), "astral", "x"), M.vclass(T("BINARY"), "empty", b""), M.vclass(T("VARBINARY"), "nul", b"\x00")],
-          ["within_int64", "over_int64", "within_int64", "json_null", "json_array", "null_only", "any", "empty", "nonempty"])
+                     M.vclass(T("VARIANT"), "json_null", "null"), M.vclass(T("VARIANT"), "nested_array", "[]"), M.vclass(T("TEXT"), "null", None), M.vclass(T("TEXT"), "astral", "x"), M.vclass(T("BINARY"), "empty", b""), M.vclass(T("VARBINARY"), "nul", b"\x00"), M.vclass(T("BINARY"), "nul", b"\x00", [b""]),
+                     M.vclass(T("INT"), "over_int64", 2**63, [0])],
+          ["within_int64", "over_int64", "within_int64", "json_null", "json_array", "null_only", "any", "empty", "nonempty", "empty", "over_int64"])
 
 
 # ---- 8. DataFrame columns ----------------------------------------------------------------------------------------
